@@ -38,6 +38,14 @@ def cmp_case(src, upd="-", tags=()):
 
 def gen(ctx):
     rng = ctx.rng
+    # the other public routes into the compiler (two-step API; a scope that has been compiled against before; Scope::default())
+    for _i in range(3000 if ctx.thorough else 300):
+        _p = G.gen_program(rng)
+        if _i % 4 == 0:
+            _p, _ = G.mutate_ast(rng, _p)
+        yield Case("CMPX", G.hx(G.render(_p, G.Layout(rng, spelling=rng.choice(["sym", "word"])))), tags=("other-routes",))
+    for _src in G.semantic_corner_programs():
+        yield Case("CMPX", G.hx(_src), tags=("other-routes",))
     maxlen = 4 if ctx.thorough else 3
     for n in range(1, maxlen + 1):
         for seq in itertools.product(G.TOKENS, repeat=n):
@@ -63,7 +71,7 @@ def gen(ctx):
                 b[rng.randrange(len(b))] = rng.getrandbits(8)
         yield cmp_case(bytes(b), tags=("charmut",))
         if i % 4 == 0:
-            names = G.all_names(p) + ["Cwnd", "Micros", "Ack.now", "__eventFlag", "nosuch"]
+            names = G.all_names(p) + ["Cwnd", "Micros", "Ack.now", "__eventFlag", "nosuch", "zzzzzz", "~~", "A", "0", "{", "Report.", "\u00e9"]
             upd = ";".join("%s=%d" % (G.hx(rng.choice(names)), rng.choice([0, 1, 2**31, 2**32 - 1])) for _ in range(rng.randrange(1, 4)))
             yield cmp_case(src, upd, tags=("override",))
     for _ in range(20000 if ctx.thorough else 1000):
@@ -120,4 +128,6 @@ def nontrivial(c, r):
 
 
 def oracle(c, impl_res):
+    if c.cmd == "CMPX":
+        return ("ORC", "C10 %s" % ("PANIC" if ("PANIC" in impl_res or impl_res in ("ABORT", "HANG", "NOANSWER")) else "OK"))
     return ("ORC", "C10 %s" % impl_res.split(" ")[0])
